@@ -1,6 +1,8 @@
 import Abyss.Props.C02
 import Abyss.Props.C03
 import Abyss.Props.GenCorollaries
+import Abyss.Props.GenBudget
+#print axioms Abyss.C02_generated_reopen_budget
 #print axioms Abyss.C02_generated_reopen
 #print axioms Abyss.openMap_reopen
 #print axioms Abyss.openMap_create
